@@ -184,7 +184,6 @@ fn op_send(src: &mut Src, ctx: &mut Ctx, w: &mut World, g: &mut Gen, k: usize) -
             let ip_total = if v6f { 48 } else { 28 } + n;
             let (class, fragmented) = classify(w, &dst, ip_total);
             rec = SendRec {
-                tag,
                 status: St::Queued,
                 class,
                 fragmented,
@@ -226,7 +225,6 @@ fn op_send(src: &mut Src, ctx: &mut Ctx, w: &mut World, g: &mut Gen, k: usize) -
                 class = Class::Drop;
             }
             rec = SendRec {
-                tag,
                 status: St::Queued,
                 class,
                 fragmented,
@@ -281,7 +279,6 @@ fn op_send(src: &mut Src, ctx: &mut Ctx, w: &mut World, g: &mut Gen, k: usize) -
                 class = Class::Drop;
             }
             rec = SendRec {
-                tag,
                 status: St::Queued,
                 class,
                 fragmented,
@@ -915,7 +912,7 @@ fn case(src: &mut Src, ctx: &mut Ctx) -> Result<(), Fail> {
     }
 
     // ---- classification
-    let wrapped = w.socks.iter().any(|s| s.accepted_bytes > s.tx_bytes && s.sent.len() >= 2);
+    let wrapped = w.socks.iter().any(|s| s.sent.len() >= 2 && (s.accepted_bytes > s.tx_bytes || s.sent.len() > s.tx_meta));
     let pressure = w.backpressure_polls > 0 || w.pending_neighbour_polls > 0;
     if w.backpressure_polls > 0 {
         ctx.label("poll-under-backpressure");
@@ -943,6 +940,19 @@ fn case(src: &mut Src, ctx: &mut Ctx) -> Result<(), Fail> {
     }
     if w.socks.iter().any(|s| s.sent.iter().any(|r| r.status == St::Queued && r.class == Class::Must)) {
         ctx.label("resolvable-datagram-behind-blocked-head");
+    }
+    for (c, _) in w.classes.iter() {
+        ctx.label(c);
+    }
+    // several UDP sockets on one port: the first-match rule decides
+    for (i, a) in w.socks.iter().enumerate() {
+        for b in w.socks.iter().skip(i + 1) {
+            if let (Some(x), Some(y)) = (a.udp_ep, b.udp_ep) {
+                if x.1 == y.1 {
+                    ctx.label("udp-sockets-share-a-port");
+                }
+            }
+        }
     }
     for s in &w.socks {
         ctx.label(match s.kind {
@@ -979,7 +989,7 @@ pub fn prop() -> Prop {
         parts: vec![Part { name: "datagram", case, quick: 40_000, thorough: 2_000_000 }],
         phases: vec![],
         smoltcp_panic_is_violation: true,
-        rule: "one dual-stack node on Ethernet (ARP/NDISC answered by a scripted environment after 0/50/1500 ms or never, 6 on-link hosts + gateway against a 4-entry neighbour cache) or Medium::Ip, MTU in {100,120,200,576,1280,1500}, 1-5 sockets (UDP with overlapping ports bound to any or one address, ICMP bound by ident or UDP port, raw per version+protocol) with drawn ring geometries (1-8 metadata slots, 0-4096 payload bytes, small favoured); an operation tape of send/send_slice/send_with (size 0..capacity+1, on-link / off-link / silent / broadcast / multicast destinations, optional local_address), recv/recv_slice/peek/peek_slice with user buffers smaller/equal/larger, bind/close, poll with transmit budget 0..3 or unlimited, injection of valid datagrams (matching and non-matching ports, idents, addresses, ICMP errors), time steps; every outgoing datagram carries a unique tag (UDP destination port / echo sequence number / first payload bytes) plus PRF fill, everything emitted is decoded by the independent codec (IPv4 fragments reassembled by the reference reassembler); sender oracle: per socket the wire shows an in-order, duplicate-free subsequence of the accepted datagrams with payload, ports, addresses, protocol and hop limit unchanged, nothing discarded by close() appears, and after a tail phase (all answering neighbours answer at once, unlimited budget, time advanced past the 1 s retry timers until 3 idle rounds) every accepted datagram that is resolvable, fits the MTU or the fragmentation buffer and is not queued behind an unresolvable one has appeared exactly once; receiver oracle: a model of SUT demultiplexing (first matching UDP socket, every matching ICMP / raw socket) gives the arrivals per socket, what a socket returns must be an in-order subsequence of them, each once, whole, with the right source endpoint and local_address, a datagram that arrived at a buffer known to be empty and large enough (or that peek has shown) must be returned, a short user buffer must give Truncated and never shortened data; non-trivial = at least 3 accepted sends, a socket whose accepted bytes exceed its tx ring (wrap-around) and at least one poll under transmit back-pressure or with neighbour resolution pending; distinct by digest of (medium, MTU, socket kinds and geometries, totals)",
+        rule: "one dual-stack node on Ethernet (ARP/NDISC answered by a scripted environment after 0/50/1500 ms or never, 6 on-link hosts + gateway against a 4-entry neighbour cache) or Medium::Ip, MTU in {100,120,200,576,1280,1500}, 1-5 sockets (UDP with overlapping ports bound to any or one address, ICMP bound by ident or UDP port, raw per version+protocol) with drawn ring geometries (1-8 metadata slots, 0-4096 payload bytes, small favoured); an operation tape of send/send_slice/send_with (size 0..capacity+1, on-link / off-link / silent / broadcast / multicast destinations, optional local_address), recv/recv_slice/peek/peek_slice with user buffers smaller/equal/larger, bind/close, poll with transmit budget 0..3 or unlimited, injection of valid datagrams (matching and non-matching ports, idents, addresses, broadcast/multicast, ICMP errors about local UDP ports, sometimes as two in-order IPv4 fragments), time steps; every outgoing datagram carries a unique tag (UDP destination port / echo sequence number / first payload bytes) plus PRF fill, everything emitted is decoded by the independent codec (IPv4 fragments reassembled by the reference reassembler); sender oracle: per socket the wire shows an in-order, duplicate-free subsequence of the accepted datagrams with payload, ports, addresses, protocol and hop limit unchanged, nothing discarded by close() appears, and after a tail phase (all answering neighbours answer at once, unlimited budget, time advanced past the 1 s retry timers until 3 idle rounds) every accepted datagram that is resolvable, fits the MTU or the fragmentation buffer and is not queued behind an unresolvable one has appeared exactly once; receiver oracle: a model of SUT demultiplexing (first matching UDP socket, every matching ICMP / raw socket) gives the arrivals per socket, what a socket returns must be an in-order subsequence of them, each once, whole, with the right source endpoint and local_address, a datagram that arrived at a buffer known to be empty and large enough (or that peek has shown) must be returned, a short user buffer must give Truncated and never shortened data; non-trivial = at least 3 accepted sends, a socket whose accepted bytes exceed its tx payload ring or whose accepted datagrams exceed its metadata ring (wrap-around) and at least one poll under transmit back-pressure or with neighbour resolution pending; distinct by digest of (medium, MTU, socket kinds and geometries, totals)",
         assumptions: vec![
             "independent Ethernet/ARP/NDISC/IPv4/IPv6/UDP/ICMP codec and reference IPv4 reassembler in vkit::indep",
             "a datagram queued behind one whose next hop can never be resolved (silent neighbour, no route) may stay queued for ever: the socket queue is FIFO and smoltcp keeps an undeliverable head (head-of-line blocking is treated as permitted)",
